@@ -266,6 +266,28 @@ def run(chk):
                         if abs(g - want) > 1e-6 * (1 + abs(want)):
                             bad("cramer_rao" + ("" if fname == "object" else ":array"), "calc_cramer_rao_bound (true point given as %s)=%r, textbook value %r" % (fname, g, want))
                 chk.count(2 + len(sizes))
+            else:
+                # boundary objects: some outcome has probability exactly 0 and the textbook matrix diverges; the library's
+                # DOCUMENTED regularisation (matrix_util: "a parameter to avoid divergence about the inverse of probability,
+                # by default 1e-8") floors those probabilities at 1e-8 and takes the excess evenly from the others.
+                # Gradients: rows of the model matrix (decided by C08).
+                A = np.asarray(qt.calc_matA(), dtype=float)
+                pv = np.array([coords.rat(x) for x in st["p"]], dtype=float)
+                off = np.cumsum([0] + list(sizes))
+                for s in range(len(sizes)):
+                    ps = pv[off[s]:off[s + 1]].copy()
+                    zero = ps < 1e-8
+                    if zero.any() and not zero.all():
+                        ps[~zero] -= 1e-8 * zero.sum() / (~zero).sum()
+                        ps[zero] = 1e-8
+                    G = A[off[s]:off[s + 1]]
+                    want = (G.T / ps) @ G
+                    got = np.asarray(qt.calc_fisher_matrix(s, obj))
+                    if got.shape != want.shape or np.max(np.abs(got - want)) > 1e-6 * (1 + np.max(np.abs(want))):
+                        bad("fisher:boundary", "calc_fisher_matrix(%d) at a true object with a zero-probability outcome differs from sum grad grad^T / p with the "
+                            "documented floor 1e-8 (largest entry %.6g, expected %.6g)" % (s, float(np.max(np.abs(got))), float(np.max(np.abs(want)))))
+                        break
+                chk.count(len(sizes))
         except Exception as e:
             bad("exception", "%r" % e)
         chk.replayed += 1
